@@ -585,6 +585,24 @@ func (r *Raft) runLeader() {
 	r.leaderLoop()
 }
 
+// dropPeerFromVerify re-evaluates the verify requests that wait to hear from a
+// peer whose acknowledgement no longer counts (it was removed or lost its
+// vote): they are judged by the quorum of the latest configuration. This runs
+// in a goroutine because a decided request is handed back through verifyCh,
+// which the leader loop, our caller, reads.
+func (r *Raft) dropPeerFromVerify(repl *followerReplication) {
+	pending := repl.takeNotify()
+	if len(pending) == 0 {
+		return
+	}
+	quorumSize := r.quorumSize()
+	r.goFunc(func() {
+		for v := range pending {
+			v.dropPeer(quorumSize)
+		}
+	})
+}
+
 // startStopReplication will set up state and start asynchronous replication to
 // new peers, and stop replication to removed peers. Before removing a peer,
 // it'll instruct the replication routines to try to replicate to the current
@@ -634,6 +652,13 @@ func (r *Raft) startStopReplication() {
 				s.peer = server
 				s.peerLock.Unlock()
 			}
+
+			// A peer that has lost its vote no longer counts for the verify
+			// requests waiting to hear from it; like for a removed peer (below)
+			// they are judged by the quorum of the configuration without it.
+			if server.Suffrage != Voter {
+				r.dropPeerFromVerify(s)
+			}
 		}
 	}
 
@@ -650,18 +675,8 @@ func (r *Raft) startStopReplication() {
 		r.observe(PeerObservation{Peer: repl.peer, Removed: true})
 
 		// Verify requests that still wait to hear from this peer never will:
-		// nobody sends it heartbeats any more. Judge them by the quorum of the
-		// configuration that no longer contains it. This runs in a goroutine
-		// because a decided request is handed back through verifyCh, which
-		// this (the leader) loop reads.
-		if pending := repl.takeNotify(); len(pending) > 0 {
-			quorumSize := r.quorumSize()
-			r.goFunc(func() {
-				for v := range pending {
-					v.dropPeer(quorumSize)
-				}
-			})
-		}
+		// nobody sends it heartbeats any more.
+		r.dropPeerFromVerify(repl)
 	}
 
 	// Update peers metric
